@@ -34,6 +34,9 @@ func (v *VerifTagFilter) Value() []byte { return v.tf.value }
 // OrSuffixes are the or-values looked up directly instead of scanning.
 func (v *VerifTagFilter) OrSuffixes() []string { return v.tf.orSuffixes }
 
+// IsLiteralRegexp reports tf.isLiteralRegexp (Value is then the literal text, matched as a substring).
+func (v *VerifTagFilter) IsLiteralRegexp() bool { return v.tf.isLiteralRegexp }
+
 // IsEmptyValue reports tf.isEmptyValue.
 func (v *VerifTagFilter) IsEmptyValue() bool { return v.tf.isEmptyValue }
 
